@@ -656,6 +656,9 @@ class String(Value):
 
     _printable = string.printable[:-4]
     def _needsQuoting(self, s):
+        if s and s[0] == s[-1] and s[0] in '\'"':
+            # set() would evaluate this as a quoted string.
+            return True
         return any([x not in self._printable for x in s]) and s.strip() != s
 
     def __str__(self):
@@ -898,6 +901,9 @@ class Json(String):
         self.setValue(json.loads(v))
     def setValue(self, v):
         super(Json, self).setValue(json.dumps(v))
+    def _needsQuoting(self, s):
+        # set() parses JSON; it does not evaluate quoted Python strings.
+        return False
     def __call__(self):
         return json.loads(super(Json, self).__call__())
 
